@@ -115,6 +115,12 @@ var c15Operands = []c15Operand{
 	{"reflect.Value of an unexported empty struct", reflect.ValueOf(c15Hidden{}).Field(1), nil, true, true},
 	{"[0]int{}", [0]int{}, nil, false, true},
 	{"struct{}{}", struct{}{}, nil, false, true},
+	{"Safe(nil)", redact.Safe(nil), nil, true, true},
+	{"Unsafe(nil)", redact.Unsafe(nil), nil, true, true},
+	{"Safe([]byte{})", redact.Safe([]byte{}), nil, true, true},
+	{"Unsafe([0]int{})", redact.Unsafe([0]int{}), nil, true, true},
+	{"Safe(RedactableString(\"\"))", redact.Safe(redact.RedactableString("")), nil, true, true},
+	{"RedactableBytes{} (empty)", redact.RedactableBytes{}, nil, true, true},
 	// errors whose redaction-specific method panics: the report names the directive as %v prints it
 	{"error whose SafeFormat panics", errPanSF{"sf"}, errPanSF{"sf"}, true, false},
 	{"error whose SafeMessage panics", errPanSM{"sm"}, errPanSM{"sm"}, true, false},
